@@ -180,6 +180,9 @@ func runC04(c *Ctx) {
 	// one dispatcher at a time, also across a Restart: two dispatchers start jobs out of queue order
 	c.ruleOneDispatcher("R04.7")
 	c.ruleDispatcherJoined("R04.8")
+	// a node is offered to the dispatcher (and its slot released) only when its job is over, Close included: a node
+	// that is still inside Close() would park the next job in its buffer while a later job starts elsewhere
+	c.ruleDecrementAfterClose("R04.9")
 }
 
 func (c *Ctx) ruleComparatorTable(rule string, r *pqRoles) {
